@@ -162,7 +162,10 @@ func ruleScan(c *Ctx) []*Ob {
 			}
 		}
 		if scc == nil {
-			o.add(cl.fn, cl.desc, c.pos(f.Pos()), false, "anchor lost: the candidate "+cl.desc+" is no longer a loop around its anchor call")
+			scc = largestSCC(f)
+		}
+		if scc == nil {
+			o.add(cl.fn, cl.desc, c.pos(f.Pos()), false, "anchor lost: the candidate "+cl.desc+" is no longer a loop")
 			continue
 		}
 		// acceptance point (openStore): nil-error edge of ReadFooter
@@ -301,6 +304,20 @@ func returnOnlyIfNotEOF(k ssa.CallInstruction, r *ssa.Return) bool {
 	return !reached
 }
 
+// largestSCC: the biggest loop of f (nil when f has none).
+func largestSCC(f *ssa.Function) map[*ssa.BasicBlock]bool {
+	var best map[*ssa.BasicBlock]bool
+	for _, b := range f.Blocks {
+		if best != nil && best[b] {
+			continue
+		}
+		if s := sccOf(f, b); s != nil && len(s) > len(best) {
+			best = s
+		}
+	}
+	return best
+}
+
 func ruleScan2(c *Ctx) []*Ob {
 	o := newObs(c, "SCAN-2")
 	for _, cl := range candidateLoops(c) {
@@ -311,6 +328,9 @@ func ruleScan2(c *Ctx) []*Ob {
 				scc = s
 				break
 			}
+		}
+		if scc == nil {
+			scc = largestSCC(f)
 		}
 		if scc == nil {
 			continue
